@@ -160,6 +160,18 @@ def world(n, edges, n_derivers, deriver_kind, placement, tss, dynamic=None):
         put(target, loc + (dn,), spec)
         put(topology, loc + (dn,), {'outs': rel(loc, ('outs',)),
                                     'shared': rel(loc, ('shared',))})
+        if dynamic == 'deriver-suicide' and k == 0:
+            # the first deriver deletes ITSELF in its 2nd phase: the later
+            # derivers, which existed when the phase began, still run
+            spec['schema']['home'] = {}
+            spec['update'] = {
+                '$n': {1: {'outs': {f'v_{dn}': '$tokval'},
+                           'home': {'_delete': [dn]}}},
+                '$else': {'outs': {f'v_{dn}': '$tokval'}}}
+            get_in_topo = topology
+            for key in loc + (dn,):
+                get_in_topo = get_in_topo[key]
+            get_in_topo['home'] = ()
     for i, name in enumerate(names):
         loc = location(placement, i) if placement != 'mixed' else ()
         spec = step_spec(name)
@@ -373,6 +385,8 @@ def check(spec, ex):
                 expected = expected | {'new2'}
         if spec['dynamic'] == 'quiet' and phase_no == 1:
             expected = expected - {'a'}
+        if spec['dynamic'] == 'deriver-suicide' and phase_no >= 2:
+            expected = expected - {'z0'}
         if spec['dynamic'] == 'delete' and phase_no >= 1:
             victim = NAMES[n - 1]
             if phase_no >= 2 or True:
@@ -414,14 +428,14 @@ def check(spec, ex):
                   f'a time in declaration order')
                 return out
         # derivers first, in declaration order, one at a time
-        for k, dn in enumerate(dnames):
+        for k, dn in enumerate([d for d in dnames if d in expected]):
             if pos.get(dn) != k:
                 V('C05.derivers', 'derivers-not-first-in-order',
                   f'phase {phase_no}: order {pids}, derivers {dnames} must '
                   f'come first in declaration order')
                 return out
             st = invs[k]['states']['outs']
-            for prev in dnames[:k]:
+            for prev in [d for d in dnames if d in expected][:k]:
                 if st.get(f'v_{prev}') != this_tok[prev]:
                     V('C05.derivers', 'deriver-does-not-see-previous',
                       f'phase {phase_no}: deriver {dn} read v_{prev}='
@@ -448,7 +462,7 @@ def check(spec, ex):
                           f'{st.get("v_" + an)} but {an} wrote '
                           f'{this_tok[an]} in this phase')
                         return out
-            for dn in dnames:
+            for dn in [d for d in dnames if d in expected]:
                 if st.get(f'v_{dn}') != this_tok.get(dn):
                     V('C05.derivers', 'flow-step-before-deriver-update',
                       f'phase {phase_no}: {name} read v_{dn}='
@@ -580,6 +594,11 @@ def jobs(ctx):
                               else PLACEMENTS):
                 out.append((n, edges, 0, 'steps', placement, (1,), 'kids'))
             out.append((n, edges, 0, 'steps', 'flat', (1,), 'quiet'))
+            if n == 2:
+                for kind in ('steps', 'process'):
+                    for placement in ('flat', 'comp'):
+                        out.append((n, edges, 3, kind, placement, (1,),
+                                    'deriver-suicide'))
             if n == 2 or not ctx.quick:
                 out.append((n, edges, 1, 'steps', 'comp', (1,), 'quiet'))
     if not ctx.quick:
